@@ -136,6 +136,32 @@ def zeros_like(x):
     return zeros(x.shape, x.dtype)
 
 
+class StackedCopies:
+    """np.stack([d] * m, axis): m copies of one vector; only its flattening is given a meaning"""
+    def __init__(self, d, m, axis):
+        self.d, self.m, self.axis = d, m, axis
+        self.shape = (d.shape[0], m) if axis in (-1, 1) else (m, d.shape[0])
+        self.dtype = d.dtype
+
+    def reshape(self, *shape):
+        if shape not in ((-1,), ((-1,),)):
+            raise Unsupported("reshape of stacked copies other than flattening")
+        n = self.d.shape[0] * self.m
+        if self.axis in (-1, 1):      # row-major flattening of [d d ... d] (columns): every entry repeated m times in place
+            t = alg.vkron(self.d.term, alg.ones(z3.IntVal(self.m)))
+        else:                         # copies one after the other
+            t = alg.vrep(self.d.term, z3.IntVal(self.m))
+        return AMat(t, (n,), self.dtype, fresh=True)
+
+
+def stack(xs, axis=0):
+    _use("stack")
+    xs = list(xs)
+    if xs and all(x is xs[0] for x in xs) and isinstance(xs[0], AMat) and xs[0].ndim == 1:
+        return StackedCopies(xs[0], len(xs), axis)
+    raise Unsupported("stack of arrays other than copies of one vector")
+
+
 def ones_like(x):
     _use("ones_like")
     if isinstance(x, AMat) and x.ndim == 1:
